@@ -135,6 +135,22 @@ def impl_init():
             else:
                 obj = U.scapy_from_spec(sp)
             ps = TCPPacketSignature.from_packet(parse_packet(obj), c["syn_mss"])
+            if (sp.get("win", 0) // 7 + c["syn_mss"]) % 3 == 0:
+                # the signature has served as the REFERENCE of an uptime measurement in between (a later ACK of the same host, one second on, whose timestamp
+                # has jumped out of every plausible range): it still describes its packet, and so does the multiplier computed from it afterwards
+                import time
+                from pyp0f.exceptions import PacketError
+                from pyp0f.fingerprint import fingerprint_uptime
+                from harness import wire as W
+                real = time.time_ns
+                try:
+                    time.time_ns = lambda: ps.received * 10 ** 6 + 10 ** 9
+                    later = U.scapy_from_spec({"v": W.full(sp)["v"], "flags": 0x10, "ack": 1, "seq": 5, "opts": "0101" + W.o_ts((ps.options.timestamp + 10 ** 7) % 2 ** 32 or 1, 1)})
+                    fingerprint_uptime(later, ps)
+                except PacketError:
+                    pass
+                finally:
+                    time.time_ns = real
             wm = ps.window_multiplier
             return [wm.value, bool(wm.is_mtu)]
         ps = TCPPacketSignature(ip_version=p["ver"], ip_options_length=p["olen"], ttl=p["ttl"], window_size=p["win"],
